@@ -3,7 +3,7 @@ import os
 
 from .. import gen, refmodel as R, tree as T
 from ..monitor import FSMonitor, lexical_rel
-from ..common import F, G
+from ..common import foreign_bits, WCMATCH_PARSER_FLAG_NAMES, F, G
 from wcmatch import wcmatch as WM
 from .c02 import pathspec
 
@@ -233,6 +233,21 @@ def check_config(ctx, tr, rng, k, j, mon):
         skipped2 = w.get_skipped()      # the count belongs to the run: a second run of the object reports the same number
         got = [os.path.abspath(p) for p in got]
         got2 = [os.path.abspath(p) for p in got2]
+        # flag bits that are no WcMatch flag (glob's REALPATH / NODIR / FORCEWIN ..., internal and unused ones) are ignored
+        gotf = None
+        if (k + j) % 4 == 1:
+            fbits = foreign_bits(WCMATCH_PARSER_FLAG_NAMES, extra=0x1F000000)
+            fb = fbits[(k * 7 + j) % len(fbits)]
+            allf = 0
+            for b_ in fbits:
+                allf |= b_
+            try:
+                wf = WM.WcMatch(root_arg, ftext, dtext, wmflags(fn) | fb)
+                wa = WM.WcMatch(root_arg, ftext, dtext, wmflags(fn) | allf)
+                gotf = (hex(fb), sorted(os.path.abspath(p) for p in wf.match()), wf.get_skipped(), sorted(os.path.abspath(p) for p in wa.match()), wa.get_skipped())
+            except Exception as e:  # noqa: BLE001
+                gotf = (hex(fb), f'raised {type(e).__name__}', None, None, None)
+            ctx.count('foreign_flag_bit_walks')
         # the same walk with everything given as bytes (every third configuration): same files, same count
         gotb = None
         if (k + j) % 3 == 0:
@@ -262,6 +277,10 @@ def check_config(ctx, tr, rng, k, j, mon):
         return
     if got2 != got:
         ctx.disagree('imatch() does not yield match()\'s list', dict(wit, match=got_rel[:20]))
+    if gotf is not None and gotf[1:] != (sorted(got), skipped, sorted(got), skipped):
+        ctx.disagree('a flag bit that is no WcMatch flag changes the walk',
+                     dict(wit, foreign_bit=gotf[0], with_bit=gotf[1] if isinstance(gotf[1], str) else [os.path.relpath(p, root) for p in gotf[1]][:20],
+                          with_bit_skipped=gotf[2], with_all_foreign_bits_skipped=gotf[4], without=got_rel[:20], skipped=skipped))
     if gotb is not None and gotb != (sorted(got), skipped):
         ctx.disagree('the walk with bytes arguments differs from the walk with str arguments',
                      dict(wit, str_result=got_rel[:20], str_skipped=skipped, bytes_skipped=gotb[1],
